@@ -2,7 +2,7 @@ use crate::error::{Sm2Error, Sm2Result};
 use crate::fields::fp64::{fp_sqrt, fp_from_mont, fp_to_mont, SM2_P};
 use crate::fields::FieldModOperation;
 use crate::sm2p256_table::SM2P256_PRECOMPUTED;
-use crate::u256::{u256_from_be_bytes, SM2_ZERO, U256};
+use crate::u256::{u256_cmp, u256_from_be_bytes, SM2_ZERO, U256};
 
 #[derive(Debug, Clone, Eq, PartialEq, Copy)]
 pub struct Point {
@@ -103,7 +103,12 @@ impl Point {
             } else {
                 y_q = 1
             }
-            let x = fp_to_mont(&U256::from_byte_be(&b[1..]));
+            let x_raw = U256::from_byte_be(&b[1..]);
+            // SEC1: a coordinate must be a canonical field element
+            if u256_cmp(&x_raw, &SM2_P) >= 0 {
+                return Err(Sm2Error::InvalidPublic);
+            }
+            let x = fp_to_mont(&x_raw);
             let xxx = x.fp_mul(&x).fp_mul(&x);
             let ax = x.fp_mul(&crate::fields::fp64::SM2_MODP_MONT_A);
             let yy = xxx
@@ -122,17 +127,27 @@ impl Point {
             })
         }
         // uncompressed Point
-        else {
+        else if flag == 0x04 {
             if b.len() != 65 {
                 return Err(Sm2Error::InvalidPublic);
             }
-            let x = fp_to_mont(&u256_from_be_bytes(&b[1..33]));
-            let y = fp_to_mont(&u256_from_be_bytes(&b[33..65]));
+            let x_raw = u256_from_be_bytes(&b[1..33]);
+            let y_raw = u256_from_be_bytes(&b[33..65]);
+            // SEC1: coordinates must be canonical field elements
+            if u256_cmp(&x_raw, &SM2_P) >= 0 || u256_cmp(&y_raw, &SM2_P) >= 0 {
+                return Err(Sm2Error::InvalidPublic);
+            }
+            let x = fp_to_mont(&x_raw);
+            let y = fp_to_mont(&y_raw);
             Ok(Point {
                 x,
                 y,
                 z: crate::fields::fp64::SM2_MODP_MONT_ONE,
             })
+        }
+        // any other tag (00, 01, 05.., hybrid 06/07) is not an encoding this crate produces or accepts
+        else {
+            Err(Sm2Error::InvalidPublic)
         }
     }
 
